@@ -485,6 +485,7 @@ def check(rep):
                 'channel.close, broker closes channel, channel re-open, broker closes connection, transport dies, broker silent, '
                 'close() from 1..3 threads (at a heartbeat timer firing, with a bystander in an RPC), open again} x heartbeat {off, 2 s, 4 s} x schedules; '
                 'distinct = distinct (history, seed); non-trivial = the history contains a close() after a fault/failed open or a re-open')
+    rep.rule += "; plus: a third of the closes leave a with-block, frames of the previous life reach a closed channel before Channel.open(), and re-open after a dead-peer verdict on C12's virtual-clock simulator"
     rep.assumptions = [
         'OS resources are the virtual runtime\'s inventory (virtual sockets, managed threads, virtual timers); real file descriptors are not observed',
         'the reader thread leaves its loop within the join time-out once the run flag is cleared (model step join-reader)',
